@@ -400,7 +400,7 @@ def rule_tables(ctx: Ctx, rep: Report) -> None:
     # v: overhead uses the same predicate in size and ops
     sz = PT.text(ctx.func(f"{MS}._computed_script_size"))
     op = PT.text(ctx.func(f"{MS}._wrapper_ops"))
-    rep.ob(rule, "v:same_predicate", "_has(node.subs[0].properties, 'x')" in sz and "_has(sub.properties, 'x')" in op, where, "v: costs one opcode exactly when its child has property x, in size and in ops")
+    rep.ob(rule, "v:same_predicate", VX.of(ctx.func(f"{MS}._computed_script_size")).anywhere("_has(node.subs[0].properties, 'x')") and VX.of(ctx.func(f"{MS}._wrapper_ops")).anywhere("_has($$sub.properties, 'x')"), where, "v: costs one opcode exactly when its child has property x, in size and in ops")
     # leaf sizes against their literal templates
     ls = PT.text(ctx.func(f"{MS}._leaf_script_size"))
     vx = VX.of(ctx.func(f"{MS}._leaf_script_size"))
